@@ -26,7 +26,9 @@ EPS = np.finfo(np.float64).eps
 H = 1e-6             # own finite-difference step (same as the eps passed to the engine's FD routines)
 # (a) central FD of forces that are at most mildly non-polynomial in qvel: round-off ~ eps*|f|/H ~ 1e-9*scale,
 #     truncation ~ H^2 f''' ~ 1e-12.  TOL_A = 2e-8 relative to the force scale is ~100x the worst observed (1e-10).
-TOL_A = 2e-8
+TOL_A = 2e-8         # only used for labelling thresholds; the assertion uses the per-entry error model below
+K_T = 10             # multiple of the Richardson truncation estimate |fd(2H) - fd(H)| (= 3x the truncation error of fd(H))
+K_R = 3000.0         # multiple of eps*|f_row|/H; worst observed on the unchanged tree ~50 (seeds 1-5 quick), i.e. ~60x margin
 # (b)/(c) same perturbations, same eps: the engine's routine and the re-implementation differ by round-off
 #     amplified by 1/eps (~1e-9*scale*cond); TOL_B ~100x the worst observed.
 TOL_B = 2e-8
@@ -205,7 +207,7 @@ def main(ck):
   E = lib.enums
   worst = {}
 
-  stats = dict(tendon_bias_derivative_omitted=0, tendon_bias_derivative_max=0.0, euler_polydamp_cases=0, euler_polydamp_max_dev=0.0, ctrl_outside_range_velocity_gain=0, implicit_velgain_cases=0, implicit_velgain_max_dev=0.0)
+  stats = dict(tendon_bias_derivative_omitted=0, tendon_bias_derivative_max=0.0, euler_polydamp_cases=0, euler_polydamp_max_dev=0.0, ctrl_outside_range_velocity_gain=0, ellipsoid_minval_regime=0, implicit_velgain_cases=0, implicit_velgain_max_dev=0.0)
 
   def P_early(m):
     return dense_from(m, np.zeros(int(m.nD)))[1]
@@ -243,6 +245,9 @@ def main(ck):
       'with polynomial joint damping resp. velocity-dependent actuator gains the factor depends on the perturbed '
       'quantity and the returned columns differ from a direct perturbation of mj_step (reported as finding; those '
       'columns are carved out and their deviation recorded in the evidence)',
+      'qDeriv vs FD uses a per-entry error model of the reference: 10x the Richardson truncation estimate |fd(2H)-fd(H)| plus '
+      '3000*eps*|f_row|/H round-off; cases where an ellipsoid-fluid geom has (smallest semi-axis)^8*speed^3 < 1e3*mjMINVAL are '
+      'skipped (force and derivative clamp different sub-expressions with mjMINVAL; reported)',
       'joint limits are present in a quarter of the models; for those, transition Jacobians are compared only if the '
       'active set is empty at the nominal state (solver iteration counts are otherwise not differentiable)']
 
@@ -329,7 +334,11 @@ def main(ck):
     fd_pa = np.zeros((nv, nv))
     fd_b = np.zeros((nv, nv))
     fd_tb = np.zeros((nv, nv))
+    fd_pa2 = np.zeros((nv, nv))      # same differences with step 2H: Richardson estimate of the truncation error
+    fd_b2 = np.zeros((nv, nv))
     fabs = np.zeros(nv)
+    mag_pa = np.zeros(nv)            # per-row magnitude of the differenced forces (round-off of the FD = eps*mag/H)
+    mag_b = np.zeros(nv)
     for i in range(nv):
       vp, vm = v0.copy(), v0.copy()
       vp[i] += H
@@ -340,6 +349,19 @@ def main(ck):
       fd_pa[:, i] = ((p1 + a1) - (p2 + a2)) / (2 * H)
       fd_b[:, i] = (b1 - b2) / (2 * H)
       fabs = np.maximum(fabs, np.abs(p1) + np.abs(a1) + np.abs(b1))
+      mag_pa = np.maximum(mag_pa, np.abs(p1) + np.abs(a1))
+      mag_b = np.maximum(mag_b, np.abs(b1))
+      vp[i] += H
+      vm[i] -= H
+      p1, a1, b1, t1 = forces(vp)
+      p2, a2, b2, t2 = forces(vm)
+      fd_pa2[:, i] = ((p1 + a1) - (p2 + a2)) / (4 * H)
+      fd_b2[:, i] = (b1 - b2) / (4 * H)
+    # error model of the reference, per entry: truncation c*H^2 estimated from the two step sizes (fd_2H - fd_H = 3 c H^2,
+    # allowed K_T times that) + round-off K_R*eps*|f_row|/H (the forces are sums of terms of about their own size; the
+    # bias force of a row additionally cancels terms of the size of the largest row of its tree -> global magnitude)
+    err_pa = K_T * np.abs(fd_pa2 - fd_pa) + K_R * EPS / H * (mag_pa[:, None] + 1e-3 * mag_pa.max() + 1e-12)
+    err_b = K_T * np.abs(fd_b2 - fd_b) + K_R * EPS / H * (mag_b[:, None] + 1e-1 * mag_b.max() + 1e-12)
     da = lib.copy_data(m, d)
     lib.mjd_smooth_vel(m, da, 1)
     D1, P = dense_from(m, np.array(da.qDeriv))
@@ -351,7 +373,25 @@ def main(ck):
       labels.append('carved:tendon-armature-bias-derivative')
       stats['tendon_bias_derivative_omitted'] += 1
       stats['tendon_bias_derivative_max'] = max(stats['tendon_bias_derivative_max'], float(np.abs(fd_tb[P_early(m)]).max()))
-    if not near_clamp and not ctrl_out:
+    # ellipsoid fluid model at tiny (semi-axis^8 * speed^3): the force code clamps denominators with mjMINVAL = 1e-15
+    # (proj_denom ~ s^8 v^2 times |v|), the derivative code clamps different sub-expressions, so in that regime qDeriv is
+    # not the derivative of the clamped force (FD converges to 1e-13, analytic differs by ~1e-3 relative; reported).
+    # Carved out by the documented constant, conservatively (smallest semi-axis, local speed at the geom).
+    guard = False
+    if float(m.opt.density) > 0 or float(m.opt.viscosity) > 0:
+      for g_ in range(m.ngeom):
+        if float(m.geom_fluid[g_][0]) > 0:
+          sz = np.array(m.geom_size[g_])
+          smin = float(sz[sz > 0].min()) if np.any(sz > 0) else 0.0
+          vloc = np.zeros(6)
+          lib.mj_objectVelocity(m, d, E.mjOBJ_GEOM, g_, vloc, 0)
+          sp = float(np.linalg.norm(vloc[3:] - np.array(m.opt.wind))) + 2 * H
+          if smin ** 8 * sp ** 3 < 1e3 * E.mjMINVAL:
+            guard = True
+    if guard:
+      labels.append('carved:ellipsoid-fluid-minval-regime')
+      stats['ellipsoid_minval_regime'] += 1
+    if not near_clamp and not ctrl_out and not guard:
       # documented (Integrators / geFreeBody): under implicitfast D is symmetrised, D <- (D + D')/2, except on the 6x6
       # blocks of standalone free bodies (free joint, body without children) which keep the exact derivative
       implicitfast = integ_name == 'implicitfast'
@@ -365,16 +405,19 @@ def main(ck):
             exp0[va:va + 6, va:va + 6] = fd_pa[va:va + 6, va:va + 6]
         if np.abs(fd_pa - exp0)[P].max() > 10 * TOL_A * (fscale + np.abs(fd_pa).max()):
           labels.append('implicitfast-symmetrisation-visible')
-      close('qDeriv(no bias)', D0[P], exp0[P], fscale + np.abs(fd_pa).max(), TOL_A,
+      err0 = err_pa
+      if implicitfast:
+        err0 = 0.5 * (err_pa + err_pa.T) + err_pa
+      close('qDeriv(no bias)', D0[P], exp0[P], err0[P], 1.0,
             'mjd_smooth_vel(flg_bias=0) vs central FD of passive+actuator forces%s' % (' (symmetrised, implicitfast)' if implicitfast else ''),
             'qDeriv-passive-actuator')
-      close('qDeriv(bias)', D1[P], (exp0 - fd_b)[P], fscale + np.abs(fd_pa).max() + np.abs(fd_b).max(), TOL_A,
+      close('qDeriv(bias)', D1[P], (exp0 - fd_b)[P], (err0 + err_b)[P], 1.0,
             'mjd_smooth_vel(flg_bias=1) vs central FD of passive+actuator-bias forces', 'qDeriv-full')
       dfd = lib.copy_data(m, d)
       lib.mjd_smooth_velFD(m, dfd, H)
       Dfd, _ = dense_from(m, np.array(dfd.qDeriv))
       if not implicitfast:
-        close('qDeriv-vs-engineFD', (D1 - fd_tb)[P], Dfd[P], fscale + np.abs(fd_pa).max() + np.abs(fd_b).max(), TOL_A,
+        close('qDeriv-vs-engineFD', (D1 - fd_tb)[P], Dfd[P], 2 * (err0 + err_b)[P], 1.0,
               'mjd_smooth_vel (minus the omitted tendon-armature term) vs mjd_smooth_velFD', 'qDeriv-engineFD')
     else:
       # the RNE part is independent of the actuator clamps
@@ -390,7 +433,7 @@ def main(ck):
         Bm = np.zeros(36)
         lib.mjd_freeBias_vel(m, d, j, Bm)
         va = int(m.jnt_dofadr[j])
-        close('freeBias', Bm.reshape(6, 6), fd_b[va:va + 6, va:va + 6], fscale + np.abs(fd_b).max(), TOL_A,
+        close('freeBias', Bm.reshape(6, 6), fd_b[va:va + 6, va:va + 6], err_b[va:va + 6, va:va + 6], 1.0,
               'mjd_freeBias_vel vs FD of qfrc_bias (standalone free body)', 'freeBias')
         labels.append('freebody-closed-form')
 
